@@ -392,12 +392,16 @@ def inserts_all(common, srcs):
     while isinstance(k, tuple) and k[:2] == ("sym", "mut") and k[2] == "insert" and len(k) >= 5 and len(k[4]) == 1:
         ins.append((k[4][0], k[5] if len(k) > 5 else ()))
         k = k[3]
-    if not (isinstance(k, tuple) and k[:2] == ("sym", "call") and ("with_capacity" in k[2] or k[2].endswith("::new"))):
-        return False
-
     def elem_of(item, src):
         return isinstance(item, tuple) and item[:3] == ("sym", "at", src)
-    full = {src for src in srcs if any(elem_of(it, src) and not g for it, g in ins)}
+    seeded = set()
+    if isinstance(k, tuple) and k[:1] == ("collect",) and isinstance(k[1], tuple) and k[1][:1] == ("seq",) and k[1][1] in srcs and elem_of(k[1][2], k[1][1]) and not k[1][3]:
+        seeded.add(k[1][1])          # the chain starts from one list collected in full (an insert-per-element loop over it is that collection)
+    elif isinstance(k, tuple) and k[:2] == ("sym", "collect") and k[2] in srcs:
+        seeded.add(k[2])
+    elif not (isinstance(k, tuple) and k[:2] == ("sym", "call") and ("with_capacity" in k[2] or k[2].endswith("::new"))):
+        return False
+    full = {src for src in srcs if src in seeded or any(elem_of(it, src) and not g for it, g in ins)}
     for src in srcs:
         if src in full:
             continue
@@ -410,7 +414,7 @@ def inserts_all(common, srcs):
                     ok = True
         if not ok:
             return False
-    return bool(ins)
+    return bool(ins) or bool(seeded)
 
 
 def conj_set(v):
